@@ -368,6 +368,35 @@ theorem relogin_resets_cwd (cfg : Cfg) (w : World) (s : SState) (rest : Str) (ar
   simp only [body] at h ⊢
   simp only [h, hu, Option.map, Option.getD]
 
+/-- what `Server.user` deletes before it looks the new login up, as the translator found it -/
+theorem user_deletes_table : userDeletes = ["user", "logged", "rename_from"] := by decide
+
+/-- **relogin_drops_pending_rename** (finding F15, repaired in /repo 8bb467e): USER — any argument, any outcome —
+    leaves no pending rename: an RNFR accepted under the previous login cannot be completed under the next one -/
+theorem relogin_drops_pending_rename (cfg : Cfg) (w : World) (s : SState) (rest : Str) (arg : PPath)
+    (payload : Bytes) : (body cfg w s .user rest arg payload).2.1.renameFrom = none := by
+  simp only [body, user_deletes_table]
+  rfl
+
+/-- … so the RNTO that follows a re-login is refused as out of sequence, whoever logged in -/
+theorem rnto_after_relogin_503 (cfg : Cfg) (w : World) (s : SState) (rest rest₂ : Str) (arg : PPath) (payload : Bytes)
+    (hl : (body cfg w s .user rest arg payload).2.1.logged = true) :
+    (runVerb cfg (body cfg w s .user rest arg payload).1 (body cfg w s .user rest arg payload).2.1 .rnto rest₂ payload).2.2.replies
+      = [503] := by
+  have hr := relogin_drops_pending_rename cfg w s rest arg payload
+  generalize (body cfg w s .user rest arg payload).2.1 = s1 at hl hr
+  generalize (body cfg w s .user rest arg payload).1 = w1
+  unfold runVerb
+  obtain ⟨t, ht⟩ := rnto_needs_rnfr
+  rw [ht]
+  simp [runGuards, runGuard, fieldSet, hl, hr]
+
+/-- **old_relogin_kept_rename** (what F15 was): a USER that deletes only `user` and `logged` keeps the pending
+    rename — `RNFR x; USER other; PASS …; RNTO y` moved a file out of the previous user's base directory -/
+theorem old_relogin_kept_rename (s : SState) (src : Path) (h : s.renameFrom = some src) :
+    (if ["user", "logged"].contains "rename_from" then none else s.renameFrom) = some src := by
+  simp [h]
+
 /-- a successful PASV/EPSV lets go of a parked data connection -/
 theorem pasv_drops_parked_data (cfg : Cfg) (w : World) (s : SState) (arg : PPath)
     (payload : Bytes) : (body cfg w s .epsv [] arg payload).2.1.dataConn = false ∧
